@@ -277,8 +277,13 @@ def wl_random(ctx, rng, case_no):
         name = rng.choice(["accent", "accent", "warning", "red", "#000000", "color(1)", "default", ""])
         if rng.random() < 0.8:
             c = Color(name, ColorType.TRUECOLOR, triplet=ColorTriplet(r, g, b))
-        else:
+        elif rng.random() < 0.5:
             c = Color(name, ColorType.EIGHT_BIT, number=16 + r % 240)
+        else:
+            # an indexed colour that also carries the RGB value of its index (c._replace(triplet=c.get_truecolor())):
+            # its kind is still what its type says
+            n = 16 + r % 240
+            c = Color(name, ColorType.EIGHT_BIT, number=n, triplet=ColorTriplet(*pal[2][n]))
         ctx.count("mon.constructor_route")
     ch = check_color(ctx, c, api, pal)
     ctx.case_done(("rgb", r, g, b), ch, {"rgb": (r, g, b), "route": route})
